@@ -431,7 +431,7 @@ def defect(ctx, key, what, replay):
 def stream_tie(ctx, objdir, harness):
     rng = ctx.rng
     todo = []
-    ncase = ctx.n(12, 120)
+    ncase = ctx.n(12, 80)
     for i in range(ncase):
         small = i % 3 != 2
         case = gen_case(rng, rng.randrange(3, 9) if small else rng.randrange(6, 14), small=small)
@@ -578,7 +578,7 @@ def text_defect_class(fname, content, err):
 def e2e(ctx, objdir):
     uft = os.path.join(objdir, "uftrace")
     rng = ctx.rng
-    ndirs = ctx.n(1, 4)
+    ndirs = ctx.n(1, 3)
     for di in range(ndirs):
         case = gen_case(rng, ctx.n(6, 14), small=True, nested=True, minstr=3)
         root = os.path.join(ctx.scratch, "e2e%d" % di)
@@ -588,7 +588,7 @@ def e2e(ctx, objdir):
         full = files["100.dat"]
         # the model decides, for every cut of the task file: length of the copy cut at the last whole record,
         # defect class, and whether the reader ends by the diagnostic exit
-        defs = ("Definition envl := %s.\nDefinition rs : list rec := [%s].\n" % (coq_envl(case), ";\n ".join(coq_rec(r) for r in case["recs"])))
+        defs = ("Definition envl : list (N * N * (list aspec * list aspec)) := %s.\nDefinition rs : list rec := [%s].\n" % (coq_envl(case), ";\n ".join(coq_rec(r) for r in case["recs"])))
         r = coq.run_cases(ctx, "e2e%d" % di, PRE, defs, [
             ("ok", "wf_recs (lookup_range envl) evsize_repo rs && bytes_eqb (enc rs) %s" % coq_bytes(full)),
             ("whole", "map (fun n => length (enc (whole_prefix rs n))) (seq 0 (S (length (enc rs))))"),
